@@ -678,9 +678,15 @@ def rule_D2(ctx):
         raise AnalysisError(f'only {len(seen)} exp-Golomb decoders found')
     # closures
     init, byname, children = _dd_closures(m)
-    lc = [c for c in children if c.name == 'length_checked_get_fn']
+    # the getter installed for variable-length dtypes, by role: a closure assigned to self.get_fn that unpacks (value, length)
+    # from the wrapped getter (whatever it is called)
+    installed = {x.value.id for x in own_walk(init.node) if isinstance(x, ast.Assign) and isinstance(x.value, ast.Name)
+                 and any(ast.unparse(t) == 'self.get_fn' for t in x.targets)}
+    lc = [c for c in children if c.name in installed and any(
+        isinstance(y, ast.Assign) and isinstance(y.targets[0], ast.Tuple) and len(y.targets[0].elts) == 2 and isinstance(y.value, ast.Call)
+        for y in own_walk(c.node))]
     if len(lc) != 1:
-        raise AnalysisError('length_checked_get_fn closure not found')
+        raise AnalysisError('the (value, length) getter closure installed as self.get_fn was not found')
     g = [x for x in own_walk(lc[0].node) if isinstance(x, ast.If) and isinstance(x.test, ast.Compare) and f'len({lc[0].params()[0]})' in ast.unparse(x.test)
          and isinstance(x.test.ops[0], ast.NotEq) and G.raises_in(x.body)]
     if not g:
